@@ -1,10 +1,11 @@
 ----------------------------- MODULE EditingSys -----------------------------
 (* The editing life-cycle as a state machine: ONE ACTION PER PUBLIC CALL of lopdf.  A step runs  *)
-(* the impl-shaped call (Editing!Impl with the switches Dev) on the current document, lets the    *)
+(* the impl-shaped call (Editing!Impl with the switches dev) on the current document, lets the    *)
 (* declarative layer judge the step (Editing!Judge: FreshIds, Frame, NoStaleRef, PruneExact,      *)
 (* CountsOk, ContentOk, ResMonotone, MaxIdOk and the prescribed post-state) and carries the ghost *)
 (* state.  Arguments are drawn from the live identifiers of the current document.                 *)
 (*                                                                                                *)
+(*   dev    switches of the impl-shaped layer (Editing!DevAsIs / DevRepaired), fixed per behaviour *)
 (*   doc    the document (objects, trailer, max_id, pending bookmark targets)                     *)
 (*   aux    Editing!Aux(doc): reachable set, page sequence, content ... (a function of doc)     *)
 (*   gh     ghost: issued ids, content each page must show                                        *)
@@ -14,20 +15,21 @@
 (*          fingerprint by the VIEW of the MC module)                                             *)
 EXTENDS Editing
 
-CONSTANTS Dev,          \* switches of the impl-shaped layer (Editing!DevAsIs / DevRepaired)
-          Ops,          \* names of the calls offered
+CONSTANTS Ops,          \* names of the calls offered
           ByteStrings,  \* byte strings offered as new page content
           NumSeqs,      \* page-number sequences offered to delete_pages
           NewObjs(_),   \* NewObjs(doc): objects offered to add_object / set_object
           MaxDepth
 
-VARIABLES doc, aux, gh, n, fails, hist
+VARIABLES dev, doc, aux, gh, n, fails, hist
 
-svars == <<doc, aux, gh, n, fails, hist>>
+svars == <<dev, doc, aux, gh, n, fails, hist>>
+
+Enabled(c) == n < MaxDepth /\ c.op \in Ops /\ Pre(doc, aux, gh, c)
 
 Step(c) ==
-    /\ n < MaxDepth /\ c.op \in Ops /\ Pre(doc, aux, gh, c)
-    /\ LET r == Impl(doc, c, Dev)
+    /\ Enabled(c)
+    /\ LET r == Impl(doc, c, dev)
            B == Aux(r.doc)
            j == Judge(doc, aux, gh, c, r.res, r.doc, B)
        IN /\ doc' = r.doc
@@ -36,34 +38,54 @@ Step(c) ==
           /\ fails' = j.tags
           /\ hist' = Append(hist, [c |-> c, res |-> r.res, v |-> j.tags])
     /\ n' = n + 1
+    /\ UNCHANGED dev
 
 Streams(d)   == {id \in DOMAIN d.objs : d.objs[id].k = "stream"}
 AnnotIds(d)  == UNION {LET a == Get(d.objs[p].v, "Annots") IN IF a.k = "arr" THEN RangeOf(RefIds(a.v)) ELSE {} : p \in RangeOf(aux.pp)}
-Deletable(d) == DOMAIN d.objs \ aux.prot
 Pages_       == RangeOf(aux.pp)
 
-NewObjectId == Step(Call("NewObjectId"))
-AddObject   == \E o \in NewObjs(doc) : Step([Call("AddObject") EXCEPT !.o = o])
-Replace     == \E id \in (DOMAIN doc.objs \cup gh.issued) \ (aux.prot \cup Streams(doc)), o \in NewObjs(doc) :
-                  Step([Call("Replace") EXCEPT !.id = id, !.o = o])
-DeleteObject == \E id \in Deletable(doc) : Step([Call("DeleteObject") EXCEPT !.id = id])
-RemoveAnnot == \E id \in AnnotIds(doc) : Step([Call("RemoveAnnot") EXCEPT !.id = id])
-Prune       == Step(Call("Prune"))
-DeletePages == \E nums \in NumSeqs : Step([Call("DeletePages") EXCEPT !.nums = nums])
-Renumber    == Step(Call("Renumber"))
-Compress    == Step(Call("Compress"))
-Decompress  == Step(Call("Decompress"))
-AddPageContents   == \E p \in Pages_, b \in ByteStrings : Step([Call("AddPageContents") EXCEPT !.id = p, !.b = b])
-ChangePageContent == \E p \in Pages_, b \in ByteStrings : Step([Call("ChangePageContent") EXCEPT !.id = p, !.b = b])
-ChangeContentStream == \E id \in Streams(doc), b \in ByteStrings : Step([Call("ChangeContentStream") EXCEPT !.id = id, !.b = b])
-GetOrCreateResources == \E p \in Pages_ : Step([Call("GetOrCreateResources") EXCEPT !.id = p])
-AddXObject  == \E p \in Pages_ : Step([Call("AddXObject") EXCEPT !.id = p, !.name = "X1", !.x = MaxOf(Streams(doc))])
-AddGraphicsState == \E p \in Pages_ : Step([Call("AddGraphicsState") EXCEPT !.id = p, !.name = "G1", !.x = MaxOf(DOMAIN doc.objs)])
-BuildOutline == Step(Call("BuildOutline"))
-Save        == \E fmt \in {"table", "stream"} : Step([Call("Save") EXCEPT !.fmt = fmt])
-SaveLoad    == \E fmt \in {"table"} : Step([Call("SaveLoad") EXCEPT !.fmt = fmt])
+\* the arguments offered to each call in the current state
+Cands(op) ==
+    LET C == Call(op) IN
+    CASE op = "AddObject"    -> {[C EXCEPT !.o = o] : o \in NewObjs(doc)}
+      [] op = "Replace"      -> {[C EXCEPT !.id = id, !.o = o] :
+                                   id \in (DOMAIN doc.objs \cup gh.issued) \ (aux.prot \cup Streams(doc)), o \in NewObjs(doc)}
+      [] op = "DeleteObject" -> {[C EXCEPT !.id = id] : id \in DOMAIN doc.objs \ aux.prot}
+      [] op = "RemoveAnnot"  -> {[C EXCEPT !.id = id] : id \in AnnotIds(doc)}
+      [] op = "DeletePages"  -> {[C EXCEPT !.nums = nums] : nums \in NumSeqs}
+      [] op \in {"AddPageContents", "ChangePageContent"} -> {[C EXCEPT !.id = p, !.b = b] : p \in Pages_, b \in ByteStrings}
+      [] op = "ChangeContentStream" -> {[C EXCEPT !.id = id, !.b = b] : id \in Streams(doc), b \in ByteStrings}
+      [] op = "GetOrCreateResources" -> {[C EXCEPT !.id = p] : p \in Pages_}
+      [] op = "AddXObject"   -> {[C EXCEPT !.id = p, !.name = "X1", !.x = MaxOf(Streams(doc))] : p \in Pages_}
+      [] op = "AddGraphicsState" -> {[C EXCEPT !.id = p, !.name = "G1", !.x = MaxOf(DOMAIN doc.objs)] : p \in Pages_}
+      [] op = "Save"         -> {[C EXCEPT !.fmt = f] : f \in {"table", "stream"}}
+      [] op = "SaveLoad"     -> {[C EXCEPT !.fmt = "table"]}
+      [] OTHER               -> {C}      \* NewObjectId Prune Renumber Compress Decompress BuildOutline
 
-Calls == NewObjectId \/ AddObject \/ Replace \/ DeleteObject \/ RemoveAnnot \/ Prune \/ DeletePages \/ Renumber
-         \/ Compress \/ Decompress \/ AddPageContents \/ ChangePageContent \/ ChangeContentStream
-         \/ GetOrCreateResources \/ AddXObject \/ AddGraphicsState \/ BuildOutline \/ Save \/ SaveLoad
+Do(op) == \E c \in Cands(op) : Step(c)
+
+\* one action per public call
+NewObjectId          == Do("NewObjectId")
+AddObject            == Do("AddObject")
+Replace              == Do("Replace")
+DeleteObject         == Do("DeleteObject")
+RemoveAnnot          == Do("RemoveAnnot")
+Prune                == Do("Prune")
+DeletePages          == Do("DeletePages")
+Renumber             == Do("Renumber")
+Compress             == Do("Compress")
+Decompress           == Do("Decompress")
+AddPageContents      == Do("AddPageContents")
+ChangePageContent    == Do("ChangePageContent")
+ChangeContentStream  == Do("ChangeContentStream")
+GetOrCreateResources == Do("GetOrCreateResources")
+AddXObject           == Do("AddXObject")
+AddGraphicsState     == Do("AddGraphicsState")
+BuildOutline         == Do("BuildOutline")
+Save                 == Do("Save")
+SaveLoad             == Do("SaveLoad")
+
+AllOps == {"NewObjectId", "AddObject", "Replace", "DeleteObject", "RemoveAnnot", "Prune", "DeletePages", "Renumber",
+           "Compress", "Decompress", "AddPageContents", "ChangePageContent", "ChangeContentStream",
+           "GetOrCreateResources", "AddXObject", "AddGraphicsState", "BuildOutline", "Save", "SaveLoad"}
 =============================================================================
